@@ -1,6 +1,49 @@
-(* C01 — placeholder until Proofs/CompileCorrect.v lands: states the executable facts already available. *)
-From Coq Require Import List NArith.
-Require Import SV.Simp.Core SV.Comp.Compile.
-Theorem C01_scribe_eval : forall jet wit w x, eval jet wit (scribe w) x = Val w.
-Proof. intros jet wit w. induction w; intros x; cbn; auto; try (rewrite IHw; reflexivity). rewrite IHw1, IHw2. reflexivity. Qed.
-Print Assumptions C01_scribe_eval.
+(* C01 — the compiled program behaves as the source semantics prescribe.
+   Only statements; each closed by [exact] of a lemma proved in Proofs/. *)
+From Coq Require Import List NArith Bool.
+Import ListNotations.
+Require Import SV.Base.Res SV.Base.BT SV.Simp.Core SV.Layout.Ty SV.Layout.Value SV.Lang.Ast SV.Comp.Select
+               SV.Comp.Compile SV.Lang.Sem SV.Lang.WT SV.Proofs.EvalBasics SV.Proofs.CompileCorrect.
+
+Section C01.
+Variable jet : N -> sval -> option sval.      (* jet oracle: None = the jet fails *)
+Variable wit : N -> option sval.              (* supplied witness values, in structural form *)
+Variable args : N -> option value.            (* arguments of the template *)
+Variable dbg : bool.                          (* include_debug_symbols *)
+Variable jsig : N -> option (list ty * ty).   (* jet signatures *)
+Variable W : N -> option ty.                  (* declared witness types *)
+
+(* the run-time environment agrees with the declarations the program was checked against *)
+Definition env_ok : Prop :=
+  (forall n t, W n = Some t -> exists v, wit n = Some v /\ vty v (struct_ty t) = true) /\
+  (forall j ps r a v, jsig j = Some (ps, r) -> vty a (struct_ty (TTuple ps)) = true -> jet j a = Some v -> vty v (struct_ty r) = true) /\
+  (jet verify_jet (VR VU) = Some VU /\ jet verify_jet (VL VU) = None).
+
+(* every expression, in every scope: the emitted term computes the value the source semantics prescribes
+   (in particular the value reaching each assert!, unwrap* and jet is the prescribed one: these are
+   sub-expressions), and that value inhabits the layout of the expression's type *)
+Theorem C01_compile_correct : env_ok -> forall G sc v r t e,
+  wt jsig W args G e = true -> Inv G sc v r -> compile dbg args sc e = Ok t ->
+  eval jet wit t v = sem jet wit args r e /\
+  (forall w, sem jet wit args r e = Val w -> vty w (struct_ty (ty_of e)) = true).
+Proof. intros (H1 & H2 & H3). exact (compile_correct jet wit args dbg jsig W H1 H2 H3). Qed.
+
+(* whole programs, for both values of the debug flag: executing the compiled main on the unit input
+   succeeds exactly when the source evaluation of main finishes without a panic *)
+Theorem C01_program_correct : env_ok -> forall main t,
+  wt_program jsig W args main = true -> compile_program dbg args main = Ok t ->
+  eval jet wit t VU = sem_program jet wit args main.
+Proof. intros (H1 & H2 & H3). exact (compile_program_correct jet wit args dbg jsig W H1 H2 H3). Qed.
+End C01.
+Check C01_compile_correct.
+Print Assumptions C01_compile_correct.
+Print Assumptions C01_program_correct.
+
+(* non-vacuity: a concrete program with a let, a match and an unwrap satisfies the hypotheses *)
+Example C01_example :
+  let prog := EBlock (TTuple []) [(Some (PId 1%N), EWitness (TOption (TUInt 3)) 7%N);
+                                  (None, EMatch (TTuple []) (EVar (TOption (TUInt 3)) 1%N) None (EBlock (TTuple []) [] None)
+                                                 (Some 2%N) (EBlock (TTuple []) [(Some PIgn, ECall (TUInt 3) BDebug [EVar (TUInt 3) 2%N])] None))] None in
+  wt_program (fun _ => None) (fun n => if N.eqb n 7 then Some (TOption (TUInt 3)) else None) (fun _ => None) prog = true
+  /\ exists t, compile_program true (fun _ => None) prog = Ok t.
+Proof. vm_compute. split; [reflexivity|eexists; reflexivity]. Qed.
